@@ -573,7 +573,7 @@ func (r *scenRun) addRelay(name string) (*node, error) {
 		return n, err
 	}
 	n.poolTap = newTap(r, n.prs, "", name)
-	pool, stop, err := fractal.NewCollectorPool(r.ctx, n.poolTap, fractal.CollectorPoolListenAddress("127.0.0.1:0"))
+	pool, stop, err := fractal.NewCollectorPool(r.ctx, n.poolTap, r.poolOpts()...)
 	if err != nil {
 		return n, err
 	}
